@@ -2,7 +2,15 @@
    two directory operations that change the tree:
      content_Delete : forall fsz vid d name, step_content fsz vid (Delete d name)
      content_Mkdir  : forall fsz vid d name, step_content fsz vid (Mkdir d name)
-   in EVERY outcome of the call.
+   in EVERY outcome of the call, and two facts the frozen definitions delete_content / mkdir_content
+   do not ask for (same case analysis, stated beside the obligation):
+     content_Delete_shape : ... and on success (delete_shape) the new bytes of the one slot that
+                            changed are the old ones with 0xE5 in the first byte;
+     content_Mkdir_shape  : ... and on success (mkdir_new_shape) the new directory shows ".", ".."
+                            (11-byte names) in slots 0 and 1 of its first block and all-zero slots
+                            after them.
+   That the clusters freed by Delete belong to no other file is PrGlobalDelete.C05_delete_frees
+   (FAT entries 0) together with fs_inv of the state afterwards (fat_wf: used = reachable).
 
    Delete.  Refusals (BadHandle - stale handle or a handle of another volume id -, FilenameError,
    NotFound, DeleteDirAsFile, FileAlreadyOpen): the call only read; the observation is the same
@@ -423,11 +431,16 @@ Proof.
   destruct (N.eq_dec i j) as [->|Ne]; [left; reflexivity|right]. apply IH; lia.
 Qed.
 
+Lemma cd_slot_in d bl b i : In b bl -> i < 16 -> In (b, i * 32, slot (disk_get d b) i) (slots_of d bl).
+Proof.
+  intros Hb Hi. unfold slots_of. apply in_flat_map. exists b. split; [exact Hb|]. unfold block_slots.
+  apply cd_In_tslots_intro; [lia|]. change (N.of_nat 16) with 16. lia.
+Qed.
+
 Lemma cd_slot_key_in d bl b i : In b bl -> i < 16 -> In (b, i * 32) (map fst (slots_of d bl)).
 Proof.
   intros Hb Hi. apply in_map_iff. exists (b, i * 32, slot (disk_get d b) i). split; [reflexivity|].
-  unfold slots_of. apply in_flat_map. exists b. split; [exact Hb|]. unfold block_slots.
-  apply cd_In_tslots_intro; [lia|]. change (N.of_nat 16) with 16. lia.
+  exact (cd_slot_in d bl b i Hb Hi).
 Qed.
 
 Section Blocks.
@@ -516,10 +529,16 @@ Section Blocks.
 End Blocks.
 
 (* ---- 1e. what a successful deletion shows ---- *)
+(* the one slot that changes: the first byte of the old slot becomes 0xE5, the other 31 bytes stay *)
+Definition delete_shape (a a' : obs) : Prop :=
+  exists blk off old dc sl, dget dc (ob_dirs a) = Some sl /\ In (blk, off, old) sl /\
+    dget dc (ob_dirs a') = Some (map (upd_slot blk off (set_bytes old 0 [229])) sl).
+
 Lemma cdel_content fsz vid s1 v bl rch T name sfn blk i ch s' :
   fs_inv_at fsz vid s1 0 v bl rch T -> sfn_of_str name = Some sfn ->
   cdel_done fsz vid s1 v bl rch T sfn blk i ch s' ->
-  exists a', observes fsz vid s' a' /\ delete_content name (Ok RUnit) (obs_at s1 v bl T) a'.
+  exists a', observes fsz vid s' a' /\ delete_content name (Ok RUnit) (obs_at s1 v bl T) a' /\
+    delete_shape (obs_at s1 v bl T) a'.
 Proof.
   intros Hat Hsfn [(Hi & Hblk) (e1 & Hn0 & Eb & Eo & Enm) Hnopen (d1 & nf & fc & Hsw & Hfr & Efiles & Hat' & Hfch)].
   set (off := i * 32) in *. set (p := (blk, off)) in *. set (v' := vol_rebook v nf fc) in *.
@@ -589,46 +608,63 @@ Proof.
       destruct (dget_dir_view_inv v' bl rch T1 _ c sl' E') as (bld0 & chd0 & Hd0 & _).
       rewrite (dget_dir_view _ _ _ _ _ _ _ _ Hat (s_disk s1) c bld0 chd0 (Hbwd _ _ _ Hd0)) in E. discriminate E. }
   exists (obs_at s' v' bl T1). split; [exact (observes_at _ _ _ _ _ _ _ _ Hat')|].
-  cbn [delete_content]. split; [reflexivity|].
-  exists sfn, p, (disk_fv (s_disk s1) v (NFile e1 ch)). cbn [obs_at ob_mem ob_disk ob_dirs ob_handles].
-  split; [exact Hsfn|]. split.
-  { rewrite <- Ep. apply (vget_mem_closed _ _ _ _ _ _ _ _ Hat e1 ch Hn0). intros f Hf. rewrite Ep. exact (Hnopen f Hf). }
-  split; [exact Enm|]. split; [exact (cd_not_open _ _ _ _ _ _ _ _ p Hat Hnopen)|].
-  split; [unfold mem_view; apply cd_vget_gone; intros e ch0 Hn; exact (cd_prune_no_pos blk off T _ Hn)|].
-  split; [unfold disk_view; apply cd_vget_gone; intros e ch0 Hn; exact (cd_prune_no_pos blk off T _ Hn)|].
   split.
-  { intros q Hq. cbn [obs_at ob_mem ob_disk]. unfold mem_view, disk_view. split.
-    - apply cd_vget_transfer; [exact (di_pos _ _ _ _ _ _ HD)|exact (di_pos _ _ _ _ _ _ HD')|exact (Hiff q Hq)|].
-      intros e ch0 Hn _. exact (Hmem e ch0 Hn).
-    - apply cd_vget_transfer; [exact (di_pos _ _ _ _ _ _ HD)|exact (di_pos _ _ _ _ _ _ HD')|exact (Hiff q Hq)|].
-      intros e ch0 Hn _. exact (Hdsk e ch0 Hn). }
-  split.
-  { exists dc, (slots_of (s_disk s1) bld), [], new. cbn [obs_at ob_dirs]. rewrite app_nil_r. unfold p. cbn [fst snd].
-    split; [exact (dget_dir_view _ _ _ _ _ _ _ _ Hat (s_disk s1) dc bld chd Hdir)|].
-    split; [exact (cd_slot_key_in (s_disk s1) bld blk i Hbin Hi)|]. split; [constructor|]. split; [reflexivity|].
+  { cbn [delete_content]. split; [reflexivity|].
+    exists sfn, p, (disk_fv (s_disk s1) v (NFile e1 ch)). cbn [obs_at ob_mem ob_disk ob_dirs ob_handles].
+    split; [exact Hsfn|]. split.
+    { rewrite <- Ep. apply (vget_mem_closed _ _ _ _ _ _ _ _ Hat e1 ch Hn0). intros f Hf. rewrite Ep. exact (Hnopen f Hf). }
+    split; [exact Enm|]. split; [exact (cd_not_open _ _ _ _ _ _ _ _ p Hat Hnopen)|].
+    split; [unfold mem_view; apply cd_vget_gone; intros e ch0 Hn; exact (cd_prune_no_pos blk off T _ Hn)|].
+    split; [unfold disk_view; apply cd_vget_gone; intros e ch0 Hn; exact (cd_prune_no_pos blk off T _ Hn)|].
     split.
-    - rewrite (Hdirs dc), (dget_dir_view _ _ _ _ _ _ _ _ Hat (s_disk s1) dc bld chd Hdir). reflexivity.
-    - intros c Hc. rewrite (Hdirs c). destruct (dget c (dir_view (s_disk s1) v bl T)) as [sl|] eqn:E; [|reflexivity].
-      cbn [option_map]. f_equal. destruct (dget_dir_view_inv v bl rch T _ c sl E) as (bld0 & chd0 & Hd0 & ->).
-      apply cd_map_upd_other. intros Hin. apply cd_slot_key_block in Hin. cbn [fst] in Hin.
-      apply Hc. exact (dirs_apart _ _ _ _ _ _ _ _ HD PL c dc bld0 bld chd0 chd blk Hd0 Hdir Hin Hbin). }
-  exact (cd_handles_same s1 s' Efiles).
+    { intros q Hq. cbn [obs_at ob_mem ob_disk]. unfold mem_view, disk_view. split.
+      - apply cd_vget_transfer; [exact (di_pos _ _ _ _ _ _ HD)|exact (di_pos _ _ _ _ _ _ HD')|exact (Hiff q Hq)|].
+        intros e ch0 Hn _. exact (Hmem e ch0 Hn).
+      - apply cd_vget_transfer; [exact (di_pos _ _ _ _ _ _ HD)|exact (di_pos _ _ _ _ _ _ HD')|exact (Hiff q Hq)|].
+        intros e ch0 Hn _. exact (Hdsk e ch0 Hn). }
+    split.
+    { exists dc, (slots_of (s_disk s1) bld), [], new. cbn [obs_at ob_dirs]. rewrite app_nil_r. unfold p. cbn [fst snd].
+      split; [exact (dget_dir_view _ _ _ _ _ _ _ _ Hat (s_disk s1) dc bld chd Hdir)|].
+      split; [exact (cd_slot_key_in (s_disk s1) bld blk i Hbin Hi)|]. split; [constructor|]. split; [reflexivity|].
+      split.
+      - rewrite (Hdirs dc), (dget_dir_view _ _ _ _ _ _ _ _ Hat (s_disk s1) dc bld chd Hdir). reflexivity.
+      - intros c Hc. rewrite (Hdirs c). destruct (dget c (dir_view (s_disk s1) v bl T)) as [sl|] eqn:E; [|reflexivity].
+        cbn [option_map]. f_equal. destruct (dget_dir_view_inv v bl rch T _ c sl E) as (bld0 & chd0 & Hd0 & ->).
+        apply cd_map_upd_other. intros Hin. apply cd_slot_key_block in Hin. cbn [fst] in Hin.
+        apply Hc. exact (dirs_apart _ _ _ _ _ _ _ _ HD PL c dc bld0 bld chd0 chd blk Hd0 Hdir Hin Hbin). }
+    exact (cd_handles_same s1 s' Efiles). }
+  exists blk, off, (slot (disk_get (s_disk s1) blk) i), dc, (slots_of (s_disk s1) bld). cbn [obs_at ob_dirs].
+  split; [exact (dget_dir_view _ _ _ _ _ _ _ _ Hat (s_disk s1) dc bld chd Hdir)|].
+  split; [exact (cd_slot_in (s_disk s1) bld blk i Hbin Hi)|].
+  rewrite (Hdirs dc), (dget_dir_view _ _ _ _ _ _ _ _ Hat (s_disk s1) dc bld chd Hdir). reflexivity.
 Qed.
 
 (* ---- 1f. step_content (Delete d name) ---- *)
-Theorem content_Delete fsz vid d name : step_content fsz vid (Delete d name).
+(* every outcome: the obligation, and for the success the bytes of the slot that changed *)
+Theorem content_Delete_shape fsz vid d name s r s' a :
+  fs_inv fsz vid s -> op_known_ok (Delete d name) -> step (Delete d name) s = (r, s') -> observes fsz vid s a ->
+  exists a', observes fsz vid s' a' /\ delete_content name r a a' /\ (r = Ok RUnit -> delete_shape a a').
 Proof.
-  intros s r s' a Hinv _ Hknown Hs Ho. cbn [content_rel].
+  intros Hinv Hknown Hs Ho.
   pose proof Ho as (vi & v & bl & rch & T & Hat & Ea).
   destruct (cdel_cases fsz vid s vi v bl rch T d name r s' Hat (proj2 Hknown) Hs)
     as [(e & -> & _ & Hro & _)|(-> & s1 & sfn & blk & i & ch & Hro & Hsfn & Hat1 & Hdone)].
-  - exists a. split; [exact (cd_ro_same fsz vid s s' a Ho Hro)|reflexivity].
+  - exists a. split; [exact (cd_ro_same fsz vid s s' a Ho Hro)|]. split; [reflexivity|intros X; discriminate X].
   - pose proof (cd_ro_same fsz vid s s1 a Ho Hro) as Ho1.
     rewrite (observes_at_inv _ _ _ _ _ _ _ _ _ Ho1 Hat1).
-    exact (cdel_content fsz vid s1 v bl rch T name sfn blk i ch s' Hat1 Hsfn Hdone).
+    destruct (cdel_content fsz vid s1 v bl rch T name sfn blk i ch s' Hat1 Hsfn Hdone) as (a' & Ho' & Hrel & Hshape).
+    exists a'. split; [exact Ho'|]. split; [exact Hrel|intros _; exact Hshape].
+Qed.
+
+Theorem content_Delete fsz vid d name : step_content fsz vid (Delete d name).
+Proof.
+  intros s r s' a Hinv _ Hknown Hs Ho. cbn [content_rel].
+  destruct (content_Delete_shape fsz vid d name s r s' a Hinv Hknown Hs Ho) as (a' & Ho' & Hrel & _).
+  exists a'. split; [exact Ho'|exact Hrel].
 Qed.
 
 Print Assumptions content_Delete.
+Print Assumptions content_Delete_shape.
 
 (* ================================================================== 2. Mkdir *)
 (* ---- 2a. zero slots ---- *)
@@ -708,7 +744,9 @@ Definition mkx_ok (fsz vid : N) (s : st) (vi : nat) (v : vol) (bl rch : list N) 
     slots_of (s_disk s') pbl' = map (upd_slot blk off bytes) (slots_of (s_disk s) pbl ++ extra) /\
     Forall zero_slot extra /\ In (blk, off) (map fst (slots_of (s_disk s) pbl ++ extra)) /\
     ((dc = CL_ROOT /\ pbl' = bl') \/
-     (dc <> CL_ROOT /\ bl' = bl /\ rch' = rch /\ chain_at (s_disk s') v dc pch' /\ pbl' = data_blocks v pch')).
+     (dc <> CL_ROOT /\ bl' = bl /\ rch' = rch /\ chain_at (s_disk s') v dc pch' /\ pbl' = data_blocks v pch')) /\
+    (* the cluster of the new directory: dot entries on a zeroed block, zero blocks; its chain *)
+    exists now pcl, mk_cluster v (s_disk s) (s_disk s') c now pcl /\ chain_at (s_disk s') v c [c].
 
 Theorem mkx_make_dir fsz vid s vi v bl rch T dc sfn pbl pp r s' :
   fs_inv_at fsz vid s vi v bl rch T ->
@@ -772,6 +810,9 @@ Proof.
     + intros h ch Hh _. exact (Hkeep h ch Hh).
   - (* the parent had a free slot *)
     destruct Hcl as [(C1 & C2 & Cf) Hdots Hzero].
+    assert (Hclx : exists now0 pcl, mk_cluster v (s_disk s) (s_disk s') c now0 pcl /\ chain_at (s_disk s') v c [c]).
+    { exists now, (if dc =? CL_ROOT then CL_EMPTY else dc). split; [|exact Hc].
+      constructor; [repeat split; assumption|exact Hdots|exact Hzero]. }
     destruct (mkd_new_node (s_disk s') v dc sfn c now tm blk off Hspc Hfit Hrange Hlen H0 H229 Hdot C1 C2 Hdots Hzero Hc)
       as (A1 & A2 & A3 & A4 & A5 & A6 & A7 & A8).
     set (newt := mkd_newt (v_fat32 v) sfn tm c blk off) in *. set (newn := mkd_newn (v_fat32 v) sfn tm c blk off) in *.
@@ -813,7 +854,7 @@ Proof.
         split; [intros X g _; exact (ins_perm newn (length n1) X g A7 T)|].
         split; [exact Enew|]. split; [repeat split; assumption|]. split; [exact Hframe|]. split; [exact Hchains|].
         split; [left; lia|]. split; [left; reflexivity|]. split; [rewrite <- A6; exact Hpos|].
-        split; [exact Hslots|]. split; [constructor|]. split; [exact Hkey|]. left. split; reflexivity.
+        split; [exact Hslots|]. split; [constructor|]. split; [exact Hkey|]. split; [|exact Hclx]. left. split; reflexivity.
     + (* the parent is a directory below the root *)
       destruct (mkd_sub_dir _ _ _ _ _ _ _ _ _ _ _ Hinv HP) as (_ & R1 & R2 & Hdch & _). rewrite Edc in *.
       destruct (mkd_tree_sub _ _ _ _ _ _ _ _ Hinv (s_disk s') c newn newt W' A7 A8 Hpos A3 pe pch pkids dc pch n1 n2)
@@ -837,10 +878,13 @@ Proof.
           rewrite heads_all_nodes. exact N1. }
         split; [exact Enew|]. split; [repeat split; assumption|]. split; [exact Hframe|]. split; [exact Hchains|].
         split; [left; lia|]. split; [left; reflexivity|]. split; [rewrite <- A6; exact Hpos|].
-        split; [exact Hslots|]. split; [constructor|]. split; [exact Hkey|]. right.
+        split; [exact Hslots|]. split; [constructor|]. split; [exact Hkey|]. split; [|exact Hclx]. right.
         split; [exact Hnr|]. split; [reflexivity|]. split; [reflexivity|]. split; [exact (Hkeep dc pch Hdch Hpch)|reflexivity].
   - (* the parent had to grow *)
     destruct Hcl as [(C1 & C2 & Cf) Hdots Hzero].
+    assert (Hclx : exists now0 pcl, mk_cluster v (s_disk s) (s_disk s') c now0 pcl /\ chain_at (s_disk s') v c [c]).
+    { exists now, (if dc =? CL_ROOT then CL_EMPTY else dc). split; [|exact Hc].
+      constructor; [repeat split; assumption|exact Hdots|exact Hzero]. }
     set (blk := cluster_first_block v c') in *.
     destruct (mkd_new_node (s_disk s') v dc sfn c now tm blk 0 Hspc Hfit Hrange Hlen H0 H229 Hdot C1 C2 Hdots Hzero Hc)
       as (A1 & A2 & A3 & A4 & A5 & A6 & A7 & A8).
@@ -916,7 +960,7 @@ Proof.
         split; [exact Enew|]. split; [repeat split; assumption|]. split; [exact Hframe|]. split; [exact Hkeep|].
         split; [right; left; exact Hrh|]. split; [right; exists rch; split; [exact Hrch|reflexivity]|].
         split; [rewrite <- A6; exact Hpos|].
-        split; [exact Hslots|]. split; [exact Hzs|]. split; [exact Hkey|]. left. split; reflexivity.
+        split; [exact Hslots|]. split; [exact Hzs|]. split; [exact Hkey|]. split; [|exact Hclx]. left. split; reflexivity.
     + (* a directory below the root *)
       destruct (mkd_sub_dir _ _ _ _ _ _ _ _ _ _ _ Hinv HP) as (_ & R1 & R2 & Hdch & _). rewrite Edc in *.
       assert (Epc' : pc = dc).
@@ -942,7 +986,7 @@ Proof.
         split; [exact Enew|]. split; [repeat split; assumption|]. split; [exact Hframe|]. split; [exact Hkeep|].
         split; [exact Hpcok|]. split; [right; exists pch0; split; [exact Hpch0|reflexivity]|].
         split; [rewrite <- A6; exact Hpos|].
-        split; [exact Hslots|]. split; [exact Hzs|]. split; [exact Hkey|]. right.
+        split; [exact Hslots|]. split; [exact Hzs|]. split; [exact Hkey|]. split; [|exact Hclx]. right.
         split; [exact Hnr'|]. split; [reflexivity|]. split; [reflexivity|]. split; [exact Hpc'|reflexivity].
 Qed.
 
@@ -1041,3 +1085,313 @@ Section MkViews.
       destruct (iv_chain_block _ _ _ _ _ _ _ _ Hinv _ _ j Hh Hch Hj) as [A B]. exact (Hframe j A B Hap).
   Qed.
 End MkViews.
+
+(* ---- 2e. the errors of make_dir: no directory slot changes ---- *)
+Lemma mkx_err_content fsz vid s vi v bl rch T s' v' (e : err) :
+  fs_inv_at fsz vid s vi v bl rch T -> geo_eq v v' -> s_files s' = s_files s ->
+  mkx_err fsz vid s vi v bl rch T s' v' ->
+  exists a', observes fsz vid s' a' /\ mkdir_content (Err e) (obs_at s v bl T) a'.
+Proof.
+  intros Hinv G Efiles (Hinv' & Hframe & Hchains).
+  exists (obs_at s' v' bl T). split; [exact (observes_at _ _ _ _ _ _ _ _ Hinv')|].
+  assert (Hpc : mkx_pc_ok v T 0) by (left; lia).
+  assert (Hdir : is_dir_of v bl rch T CL_ROOT bl rch) by (left; repeat split).
+  assert (Hob : forall b, @None N = Some b -> In b bl) by (intros b E; discriminate E).
+  destruct (mv_files_same fsz vid s vi v bl rch T Hinv s' v' bl rch T Hinv' G Efiles None 0 Hframe Hchains
+              Hpc CL_ROOT bl rch Hdir Hob (fun e0 ch => conj (fun H => H) (fun H => H))) as (F1 & F2).
+  split; [exact F1|]. split; [exact F2|].
+  assert (E : dir_view (s_disk s') v' bl T = dir_view (s_disk s) v bl T).
+  { unfold dir_view. f_equal.
+    - f_equal. apply slots_of_ext. intros j Hj.
+      destruct (proj1 (proj2 (iv_root_blocks _ _ _ _ _ _ _ _ Hinv)) j Hj) as [A B].
+      apply (Hframe j A B). intros b Eb. discriminate Eb.
+    - apply flat_map_ext_in. intros n Hn. destruct n as [e0 ch0|e0 ch0 k0]; [reflexivity|]. cbn [dir_item].
+      rewrite (data_blocks_geo v v' ch0 G). f_equal. f_equal. apply slots_of_ext. intros j Hj.
+      destruct (mkd_sub_dir _ _ _ _ _ _ _ _ _ _ _ Hinv Hn) as (Hch & _ & _ & Hh & _).
+      destruct (iv_chain_block _ _ _ _ _ _ _ _ Hinv _ _ j Hh Hch Hj) as [A B].
+      apply (Hframe j A B). intros b Eb. discriminate Eb. }
+  intros c. cbn [obs_at ob_dirs]. rewrite E. reflexivity.
+Qed.
+
+(* ---- 2e'. the slots of the new directory: ".", "..", then nothing but zero slots ---- *)
+Definition mkdir_new_shape (a a' : obs) : Prop :=
+  exists cnew b0 dot dotdot zs, dget cnew (ob_dirs a) = None /\
+    dget cnew (ob_dirs a') = Some ((b0, 0, dot) :: (b0, 32, dotdot) :: zs) /\
+    firstn 11 dot = THIS_DIR_NAME /\ firstn 11 dotdot = PARENT_DIR_NAME /\ Forall zero_slot zs.
+
+Lemma cd_new_dir_slots d' v c dot dotdot : 1 <= v_spc v -> length dot = 32%nat -> length dotdot = 32%nat ->
+  disk_get d' (cluster_first_block v c) = set_bytes (set_bytes zero_block 0 dot) 32 dotdot ->
+  (forall k, 1 <= k -> k < v_spc v -> disk_get d' (cluster_first_block v c + k) = zero_block) ->
+  exists zs, slots_of d' (cluster_blocks v c) =
+               (cluster_first_block v c, 0, dot) :: (cluster_first_block v c, 32, dotdot) :: zs /\
+             Forall zero_slot zs.
+Proof.
+  intros Hspc Hl1 Hl2 Hfirst Hrest. pose proof zero_block_length as Hz.
+  set (B1 := set_bytes zero_block 0 dot) in *. set (B := set_bytes B1 32 dotdot) in *.
+  assert (L1 : length B1 = 512%nat) by (unfold B1; rewrite set_bytes_length; [exact Hz|rewrite Hz, Hl1; cbn; lia]).
+  assert (S0 : slot B 0 = dot).
+  { unfold B. rewrite slot_set_bytes_other; [|rewrite L1, Hl2; cbn; lia|left; lia].
+    unfold B1. change (set_bytes zero_block 0 dot) with (set_bytes zero_block (0 * 32) dot).
+    apply slot_set_bytes_same; [exact Hl1|]. rewrite Hz. change (0 * 32) with 0. lia. }
+  assert (S1 : slot B 1 = dotdot).
+  { unfold B. change (set_bytes B1 32 dotdot) with (set_bytes B1 (1 * 32) dotdot).
+    apply slot_set_bytes_same; [exact Hl2|]. rewrite L1. change (1 * 32) with 32. lia. }
+  assert (Sk : forall k, 2 <= k -> k < 16 -> slot B k = repeat 0 32).
+  { intros k K1 K2. unfold B. rewrite slot_set_bytes_other; [|rewrite L1, Hl2; cbn; lia|right; rewrite Hl2; lia].
+    unfold B1. rewrite slot_set_bytes_other; [exact (cd_slot_zero k K2)|rewrite Hz, Hl1; cbn; lia|right; rewrite Hl1; lia]. }
+  rewrite (cluster_blocks_cons v c Hspc), slots_of_cons. unfold block_slots at 1. rewrite Hfirst. fold B1. fold B.
+  rewrite (tslots_from_S 15 B _ 0), (tslots_from_S 14 B _ (0 + 1)). cbn [app].
+  change (0 * 32) with 0. change ((0 + 1) * 32) with 32. change (0 + 1) with 1. rewrite S0, S1.
+  eexists. split; [reflexivity|]. apply Forall_app. split.
+  - apply Forall_forall. intros t Ht. destruct (In_tslots_from _ _ _ _ _ Ht) as (j & J1 & J2 & ->).
+    unfold zero_slot. cbn [snd]. apply Sk; [change (1 + 1) with 2 in J1; exact J1|].
+    change (1 + 1 + N.of_nat 14) with 16 in J2. exact J2.
+  - apply Forall_forall. intros t Ht. destruct (In_slots_of _ _ _ Ht) as (b & k & Hb & Hk & ->).
+    destruct (In_blocks_from _ _ _ Hb) as (q & Hq & ->). unfold zero_slot. cbn [snd].
+    replace (cluster_first_block v c + 1 + N.of_nat q) with (cluster_first_block v c + (1 + N.of_nat q)) by lia.
+    rewrite Hrest by lia. exact (cd_slot_zero k Hk).
+Qed.
+
+(* ---- 2f. the success of make_dir ---- *)
+Lemma mkx_ok_content fsz vid s vi v bl rch T dc pbl pch0 s' v' :
+  fs_inv_at fsz vid s vi v bl rch T -> geo_eq v v' -> s_files s' = s_files s ->
+  is_dir_of v bl rch T dc pbl pch0 ->
+  mkx_ok fsz vid s vi v bl rch T dc pbl s' v' ->
+  exists a', observes fsz vid s' a' /\ mkdir_content (Ok RUnit) (obs_at s v bl T) a' /\
+    mkdir_new_shape (obs_at s v bl T) a'.
+Proof.
+  intros Hinv G Efiles Hdir (bl' & rch' & T' & c & newe & blk & off & bytes & extra & pcd & pbl' & pch' & oblk &
+     Hinv' & Hplus & Enew & (C1 & C2 & Cf) & (Hframe & Hoblk) & Hchains & Hpc & Hpcd & Hfresh & Hslots & Hzs & Hkey & Hwhere &
+     now & pcl & [_ Hdots Hzero] & Hcc).
+  destruct (tree_plus_nodes T T' newe [c] [] Hplus) as (Hnf & Hnd).
+  destruct (mkd_facts _ _ _ _ _ _ _ _ Hinv) as (_ & _ & _ & _ & _ & _ & Hv & _).
+  pose proof (fi_disk _ _ _ _ _ _ _ _ Hinv) as HD. pose proof (fi_disk _ _ _ _ _ _ _ _ Hinv') as HD'.
+  pose proof (fi_layout _ _ _ _ _ _ _ _ Hinv) as PL.
+  pose proof (PrBounds.pl_spc _ _ _ PL) as Hspc.
+  exists (obs_at s' v' bl' T'). split; [exact (observes_at _ _ _ _ _ _ _ _ Hinv')|].
+  destruct (mv_files_same fsz vid s vi v bl rch T Hinv s' v' bl' rch' T' Hinv' G Efiles oblk pcd Hframe Hchains
+              Hpc dc pbl pch0 Hdir Hoblk Hnf) as (F1 & F2).
+  (* the cluster of the new directory was free: no directory of the old tree has it *)
+  assert (Hcnone : dget c (dir_view (s_disk s) v bl T) = None).
+  { destruct (dget c (dir_view (s_disk s) v bl T)) as [sl0|] eqn:E; [exfalso|reflexivity].
+    destruct (dget_dir_view_inv v bl rch T _ c sl0 E) as (bld & chd & [(Ec & _)|(e & kids & Hn & Ec & _)] & _).
+    - exact (in_range_not_root v c Hv C2 Ec).
+    - destruct (mkd_sub_dir _ _ _ _ _ _ _ _ _ _ _ Hinv Hn) as (Hch & _). rewrite Ec in Hch.
+      exact (proj1 (proj2 (proj2 (chain_at_mem _ _ _ _ c Hch (chain_at_head_in _ _ _ _ Hch)))) Cf). }
+  (* the chain of a directory node of the new tree *)
+  assert (Hchain' : forall e ch kids, In (NDir e ch kids) (all_nodes T') -> chain_at (s_disk s') v (e_cluster e) ch).
+  { intros e ch kids Hn. destruct (dir_node_chain _ _ _ _ _ _ HD' e ch kids Hn) as (Hch & _).
+    exact (proj1 (chain_at_geo (s_disk s') v v' _ _ G) Hch). }
+  destruct (proj2 (Hnd newe) (or_introl eq_refl)) as (chn & kn & Hnew).
+  (* the parent in the new tree *)
+  assert (Hdir' : exists chd', is_dir_of v' bl' rch' T' dc pbl' chd').
+  { destruct Hwhere as [(-> & ->)|(Hnr & -> & -> & Hpch' & ->)].
+    - exists rch'. left. repeat split.
+    - destruct Hdir as [(Edc & _)|(pe & pkids & HP & Edc & Epbl)]; [contradiction|].
+      destruct (proj2 (Hnd pe) (or_intror (ex_intro _ pch0 (ex_intro _ pkids HP)))) as (ch' & kids' & HP').
+      pose proof (Hchain' pe ch' kids' HP') as Hc'. rewrite Edc in Hc'.
+      rewrite (chain_at_det _ _ _ _ _ Hc' Hpch') in HP'.
+      exists pch'. right. exists pe, kids'. split; [exact HP'|]. split; [exact Edc|]. symmetry. exact (data_blocks_geo v v' pch' G). }
+  destruct Hdir' as (chd' & Hdir').
+  (* every other directory *)
+  assert (Hother : forall c0, c0 <> dc -> c0 <> c ->
+            dget c0 (dir_view (s_disk s') v' bl' T') = dget c0 (dir_view (s_disk s) v bl T)).
+  { intros c0 N1 N2. destruct (dget c0 (dir_view (s_disk s) v bl T)) as [sl0|] eqn:E.
+    - destruct (dget_dir_view_inv v bl rch T _ c0 sl0 E) as (bld0 & chd0 & Hd0 & ->).
+      assert (Hd0' : is_dir_of v' bl' rch' T' c0 bld0 chd0).
+      { pose proof Hd0 as Hd0c. destruct Hd0c as [(Ec0 & Eb0 & Ech0)|(e & kids & Hn & Ec0 & Eb0)].
+        - left. destruct Hwhere as [(Edc & _)|(_ & -> & -> & _)]; [exfalso; apply N1; congruence|]. repeat split; assumption.
+        - right. destruct (proj2 (Hnd e) (or_intror (ex_intro _ chd0 (ex_intro _ kids Hn)))) as (ch' & kids' & Hn').
+          pose proof (Hchain' e ch' kids' Hn') as Hc'.
+          destruct (mkd_sub_dir _ _ _ _ _ _ _ _ _ _ _ Hinv Hn) as (Hch & R1 & _ & Hh & _).
+          assert (Hne : e_cluster e <> pcd).
+          { destruct Hpcd as [->|(pch & Hpch & Epbl)]; [lia|]. intros Eq. rewrite Eq in Hch.
+            pose proof (chain_at_det _ _ _ _ _ Hch Hpch) as Ech. destruct (chain_at_head _ _ _ _ Hpch) as (rest & Er).
+            assert (Hj : In (cluster_first_block v pcd + 0) (data_blocks v pch)).
+            { rewrite Er. unfold data_blocks. cbn [flat_map]. apply in_or_app. left. apply In_cluster_blocks_intro. lia. }
+            apply N1.
+            apply (dirs_apart _ _ _ _ _ _ _ _ HD PL c0 dc bld0 pbl chd0 pch0 (cluster_first_block v pcd + 0) Hd0 Hdir);
+              [rewrite Eb0, Ech|rewrite Epbl]; exact Hj. }
+          pose proof (Hchains _ _ Hh Hne Hch) as Hc''. rewrite (chain_at_det _ _ _ _ _ Hc' Hc'') in Hn'.
+          exists e, kids'. split; [exact Hn'|]. split; [exact Ec0|]. rewrite (data_blocks_geo v v' chd0 G). exact Eb0. }
+      rewrite (dget_dir_view _ _ _ _ _ _ _ _ Hinv' (s_disk s') c0 bld0 chd0 Hd0'). f_equal. apply slots_of_ext.
+      exact (mv_dir_blocks fsz vid s vi v bl rch T Hinv s' oblk Hframe dc pbl pch0 Hdir Hoblk c0 bld0 chd0 Hd0 N1).
+    - destruct (dget c0 (dir_view (s_disk s') v' bl' T')) as [sl'|] eqn:E'; [exfalso|reflexivity].
+      destruct (dget_dir_view_inv v' bl' rch' T' _ c0 sl' E') as (bld0 & chd0 & [(Ec0 & _)|(e & kids & Hn & Ec0 & _)] & _).
+      + rewrite Ec0 in E. unfold dir_view in E. cbn [dget] in E. rewrite N.eqb_refl in E. discriminate E.
+      + destruct (proj1 (Hnd e) (ex_intro _ chd0 (ex_intro _ kids Hn))) as [->|(ch0 & kids0 & Hn0)].
+        * apply N2. rewrite <- Ec0. exact Enew.
+        * rewrite (dget_dir_view _ _ _ _ _ _ _ _ Hinv (s_disk s) c0 (data_blocks v ch0) ch0
+                     (or_intror (ex_intro _ e (ex_intro _ kids0 (conj Hn0 (conj Ec0 eq_refl)))))) in E. discriminate E. }
+  split.
+  { split; [exact F1|]. split; [exact F2|]. split; [reflexivity|]. cbn [obs_at ob_mem ob_dirs].
+    exists (blk, off), c, (slots_of (s_disk s') (data_blocks v' chn)), dc, (slots_of (s_disk s) pbl), extra, bytes. cbn [fst snd].
+    split.
+    { unfold mem_view. apply cd_vget_gone. intros e ch Hn Ep. apply Hfresh. rewrite <- Ep. exact (in_map node_pos _ _ Hn). }
+    split; [exact Hcnone|]. split.
+    { exact (dget_dir_view _ _ _ _ _ _ _ _ Hinv' (s_disk s') c (data_blocks v' chn) chn
+               (or_intror (ex_intro _ newe (ex_intro _ kn (conj Hnew (conj Enew eq_refl)))))). }
+    split.
+    { intros Ec. rewrite Ec in Hcnone. rewrite (dget_dir_view _ _ _ _ _ _ _ _ Hinv (s_disk s) dc pbl pch0 Hdir) in Hcnone. discriminate Hcnone. }
+    split; [exact (dget_dir_view _ _ _ _ _ _ _ _ Hinv (s_disk s) dc pbl pch0 Hdir)|]. split; [exact Hkey|]. split; [exact Hzs|].
+    split; [rewrite (dget_dir_view _ _ _ _ _ _ _ _ Hinv' (s_disk s') dc pbl' chd' Hdir'), Hslots; reflexivity|].
+    intros c0 N1 N2. exact (Hother c0 N1 N2). }
+  (* the shape of the new directory *)
+  pose proof (Hchain' newe chn kn Hnew) as Hcn. rewrite Enew in Hcn.
+  pose proof (chain_at_det _ _ _ _ _ Hcn Hcc) as Echn. subst chn.
+  set (dot := ser_bytes (v_fat32 v) (mk_dirent THIS_DIR_NAME now now A_DIRECTORY c 0 (cluster_first_block v c) 0)) in *.
+  set (dotdot := ser_bytes (v_fat32 v) (mk_dirent PARENT_DIR_NAME now now A_DIRECTORY pcl 0 (cluster_first_block v c) 32)) in *.
+  assert (Hl1 : length dot = 32%nat) by (apply ser_bytes_length; reflexivity).
+  assert (Hl2 : length dotdot = 32%nat) by (apply ser_bytes_length; reflexivity).
+  destruct (cd_new_dir_slots (s_disk s') v c dot dotdot Hspc Hl1 Hl2 Hdots Hzero) as (zs & Ezs & Hzz).
+  exists c, (cluster_first_block v c), dot, dotdot, zs. cbn [obs_at ob_dirs].
+  split; [exact Hcnone|]. split.
+  { rewrite (dget_dir_view _ _ _ _ _ _ _ _ Hinv' (s_disk s') c (data_blocks v' [c]) [c]
+               (or_intror (ex_intro _ newe (ex_intro _ kn (conj Hnew (conj Enew eq_refl)))))).
+    rewrite (data_blocks_geo v v' [c] G), mkd_data_blocks_one, Ezs. reflexivity. }
+  split.
+  { exact (proj1 (ser_slot (v_fat32 v) (mk_dirent THIS_DIR_NAME now now A_DIRECTORY c 0 (cluster_first_block v c) 0)
+                    (cluster_first_block v c) 0 eq_refl)). }
+  split; [|exact Hzz].
+  exact (proj1 (ser_slot (v_fat32 v) (mk_dirent PARENT_DIR_NAME now now A_DIRECTORY pcl 0 (cluster_first_block v c) 32)
+                  (cluster_first_block v c) 32 eq_refl)).
+Qed.
+
+(* ---- 2g. step_content (Mkdir d name) ---- *)
+Lemma mk_same_content (e : err) a : mkdir_content (Err e) a a.
+Proof. split; [intros q; split; reflexivity|]. split; [reflexivity|intros c; reflexivity]. Qed.
+
+(* every outcome: the obligation, and for the success the shape of the new directory *)
+Theorem content_Mkdir_shape fsz vid d name s r s' a :
+  fs_inv fsz vid s -> op_known_ok (Mkdir d name) -> step (Mkdir d name) s = (r, s') -> observes fsz vid s a ->
+  exists a', observes fsz vid s' a' /\ mkdir_content r a a' /\ (r = Ok RUnit -> mkdir_new_shape a a').
+Proof.
+  intros Hinv Hknown Hs Ho. pose proof (fs_inv_lock fsz vid s Hinv) as Hl.
+  cbn [step] in Hs. pose proof Ho as (vi & v & bl & rch & T & Hat & Ea).
+  destruct (mkd_facts _ _ _ _ _ _ _ _ Hat) as (_ & Hnf & Hc & Ev & Evi & Hv0 & Hv & _ & _ & _ & _ & _).
+  subst vi.
+  assert (Hsame : forall e, (r, s') = (Err e, s) ->
+            exists a', observes fsz vid s' a' /\ mkdir_content r a a' /\ (r = Ok RUnit -> mkdir_new_shape a a')).
+  { intros e E. injection E as -> ->. exists a. split; [exact Ho|]. split; [apply mk_same_content|intros X; discriminate X]. }
+  destruct (find_idx (fun x => d_id x =? d) (s_dirs s) 0) as [di|] eqn:Efind.
+  2:{ assert (Hno : PrHandles.no_dir d s) by (intros x Hx; apply N.eqb_neq; exact (find_idx_none_inv _ _ _ Efind x Hx)).
+    destruct (PrHandles.C08_stale_dir_handle d s Hl Hno) as (_ & _ & _ & _ & _ & E & _). specialize (E name). cbn [step] in E.
+    rewrite E in Hs. exact (Hsame _ (eq_sym Hs)). }
+  destruct (find_idx_nth _ _ _ _ Efind) as (dd & Hdd & _). rewrite Nat.sub_0_r in Hdd.
+  assert (H1 : get_dir_by_id d s = (Ok di, s)) by (rewrite PrHandles.get_dir_by_id_eq, Efind; reflexivity).
+  assert (H2 : get_dir di s = (Ok dd, s)) by (rewrite PrHandles.get_dir_eq, Hdd; reflexivity).
+  destruct (is_full (s_dirs s) (s_maxd s)) eqn:Hfull.
+  { assert (E : make_dir_in_dir d name s = (Err TooManyOpenDirs, s)).
+    { unfold make_dir_in_dir. rewrite (PrHandles.locked_free _ s Hl), PrHandles.bind_get, Hfull. reflexivity. }
+    rewrite (PrHandles.lift_err _ _ _ _ _ E) in Hs. exact (Hsame _ (eq_sym Hs)). }
+  assert (H3 : get_volume_by_id (d_vol dd) s = if v_id v =? d_vol dd then (Ok 0%nat, s) else (Err BadHandle, s)).
+  { rewrite PrHandles.get_volume_by_id_eq, Ev. cbn [find_idx]. destruct (v_id v =? d_vol dd); reflexivity. }
+  destruct (N.eqb_spec (v_id v) (d_vol dd)) as [Evol|Nvol].
+  2:{ assert (E : make_dir_in_dir d name s = (Err BadHandle, s)).
+    { unfold make_dir_in_dir. rewrite (PrHandles.locked_free _ s Hl), PrHandles.bind_get, Hfull.
+      rewrite (bind_ok _ _ _ _ _ H1), (bind_ok _ _ _ _ _ H2). apply bind_err. exact H3. }
+    rewrite (PrHandles.lift_err _ _ _ _ _ E) in Hs. exact (Hsame _ (eq_sym Hs)). }
+  assert (Hres : PrModes.resolves s d di dd 0 v).
+  { split; [exact Hl|]. split; [exact H1|]. split; [exact H2|]. split; [exact H3|].
+    rewrite PrHandles.get_vol_eq, Hv0. reflexivity. }
+  assert (Hdir : mkd_is_dir T (d_cluster dd)).
+  { pose proof (fi_dirs _ _ _ _ _ _ _ _ Hat) as Hd. rewrite Forall_forall in Hd.
+    exact (Hd dd (nth_error_In _ _ Hdd) (eq_sym Evol)). }
+  destruct (sfn_of_str name) as [sfn|] eqn:Hsfn.
+  2:{ assert (E : make_dir_in_dir d name s = (Err FilenameError, s)).
+      { unfold make_dir_in_dir. rewrite (PrHandles.locked_free _ s Hl), PrHandles.bind_get, Hfull.
+        rewrite (bind_ok _ _ _ _ _ H1), (bind_ok _ _ _ _ _ H2), (bind_ok _ _ _ _ _ H3), Hsfn. reflexivity. }
+      rewrite (PrHandles.lift_err _ _ _ _ _ E) in Hs. exact (Hsame _ (eq_sym Hs)). }
+  destruct (PrModes.C07_mkdir_refusals s d di dd 0%nat v name sfn Hres Hfull Hsfn) as (Rdot & Rfound).
+  destruct (PrModes.dot_name sfn) eqn:Hdot.
+  { rewrite (PrHandles.lift_err _ _ _ _ _ (Rdot eq_refl)) in Hs. exact (Hsame _ (eq_sym Hs)). }
+  specialize (Rfound eq_refl).
+  (* the lookup *)
+  destruct (mkd_ctx _ _ _ _ _ _ _ _ (d_cluster dd) Hat Hdir) as (pbl & pp & Hbl & Hok & Hnd & Hcls & Hrange & Hhead & Hwhere).
+  destruct (C06_find 0 v (d_cluster dd) sfn s pbl Hv0 Hv Hnf Hc Hbl) as (s1 & Hfind & Hro).
+  pose proof (mkd_ro _ _ _ _ _ _ _ _ _ Hat Hro) as Hat1.
+  pose proof (cd_ro_same fsz vid s s1 a Ho Hro) as Ho1.
+  pose proof (observes_at_inv _ _ _ _ _ _ _ _ _ Ho1 Hat1) as Ea1.
+  destruct Hro as (Hd1 & Hc1 & Hnf1 & Hm1). pose proof Hm1 as (M1 & _).
+  destruct (find (t_matches sfn) (live_in_blocks (s_disk s) pbl)) as [t|] eqn:Ematch.
+  { (* the name exists *)
+    destruct (Rfound _ _ _ Hfind eq_refl) as (E & _).
+    rewrite (PrHandles.lift_err _ _ _ _ _ E) in Hs. injection Hs as <- <-.
+    exists a. split; [exact Ho1|]. split; [apply mk_same_content|intros X; discriminate X]. }
+  (* NotFound: make_dir runs in the state after the lookup *)
+  assert (Erun : make_dir_in_dir d name s = make_dir 0 (d_cluster dd) sfn A_DIRECTORY s1).
+  { unfold make_dir_in_dir. rewrite (PrHandles.locked_free _ s Hl), PrHandles.bind_get, Hfull.
+    rewrite (bind_ok _ _ _ _ _ H1), (bind_ok _ _ _ _ _ H2), (bind_ok _ _ _ _ _ H3), Hsfn.
+    unfold PrModes.dot_name in Hdot. rewrite Hdot. unfold bind at 1, try. rewrite Hfind. reflexivity. }
+  destruct (mkd_sfn_of_str_wf name sfn Hsfn) as (Hlen & Hge).
+  assert (H0 : get8 sfn 0 <> 0).
+  { destruct sfn as [|b0 rest]; [discriminate Hlen|]. inversion Hge; subst. unfold get8. cbn [N.to_nat nth]. lia. }
+  assert (H229 : get8 sfn 0 <> 229).
+  { destruct Hknown as (_ & Hn). cbn [op_name_ok] in Hn. unfold e5_name in Hn. rewrite Hsfn in Hn.
+    apply N.eqb_neq. exact Hn. }
+  destruct (mkd_facts _ _ _ _ _ _ _ _ Hat1) as (_ & _ & _ & Ev1 & _ & _ & _ & _ & Hwf1 & _ & Hpre1 & Hfit1).
+  rewrite <- Hd1 in Hbl, Hok, Hcls, Hwhere, Ematch.
+  assert (Hhead1 : negb (v_fat32 v) && (d_cluster dd =? CL_ROOT) = false -> In (dir_first_cluster v (d_cluster dd)) (iv_hs s1 v T)).
+  { intros E. specialize (Hhead E). unfold iv_hs, pend_of in *. rewrite Hd1. destruct Hm1 as (_ & _ & -> & _). exact Hhead. }
+  destruct (make_dir_run fsz (v_nblocks v) 0%nat v (iv_hs s1 v T) (d_cluster dd) sfn pbl s1 Hpre1
+              (fi_layout _ _ _ _ _ _ _ _ Hat1) Hfit1 Hwf1 (iv_wf _ _ _ _ _ _ _ _ Hat1) Hbl Hhead1 Hlen)
+    as (r0 & s2 & Hmk & Hcommon & Hout).
+  assert (Hfresh : ~ In sfn (map t_name (dir_shorts (s_disk s1) pbl))).
+  { apply name_fresh; [exact (do_tail _ _ _ _ _ Hok)|exact Ematch]. }
+  destruct (mkx_make_dir fsz vid s1 0%nat v bl rch T (d_cluster dd) sfn pbl pp r0 s2 Hat1 Hok Hnd Hcls Hrange Hwhere
+              Hlen H0 H229 Hdot Hfresh Hcommon Hout) as (v' & G & Efiles & Hx).
+  assert (Hdir1 : exists pch0, is_dir_of v bl rch T (d_cluster dd) pbl pch0).
+  { destruct Hwhere as [(E1 & E2 & _)|(pe & pch & pkids & HP & Edc & Epbl & _)].
+    - exists rch. left. repeat split; assumption.
+    - exists pch. right. exists pe, pkids. repeat split; assumption. }
+  destruct Hdir1 as (pch0 & Hdir1).
+  unfold lift, bind in Hs. rewrite Erun, Hmk in Hs. rewrite Ea1.
+  assert (Hr0 : r0 = Ok tt \/ r0 = Err NotEnoughSpace) by (destruct Hout; auto).
+  destruct Hr0 as [-> | ->]; injection Hs as <- <-.
+  - destruct (mkx_ok_content fsz vid s1 0%nat v bl rch T (d_cluster dd) pbl pch0 s2 v' Hat1 G Efiles Hdir1 Hx) as (a' & Ho' & Hrel & Hshape).
+    exists a'. split; [exact Ho'|]. split; [exact Hrel|intros _; exact Hshape].
+  - destruct (mkx_err_content fsz vid s1 0%nat v bl rch T s2 v' NotEnoughSpace Hat1 G Efiles Hx) as (a' & Ho' & Hrel).
+    exists a'. split; [exact Ho'|]. split; [exact Hrel|intros X; discriminate X].
+Qed.
+
+Theorem content_Mkdir fsz vid d name : step_content fsz vid (Mkdir d name).
+Proof.
+  intros s r s' a Hinv _ Hknown Hs Ho. cbn [content_rel].
+  destruct (content_Mkdir_shape fsz vid d name s r s' a Hinv Hknown Hs Ho) as (a' & Ho' & Hrel & _).
+  exists a'. split; [exact Ho'|exact Hrel].
+Qed.
+
+Print Assumptions content_Mkdir.
+Print Assumptions content_Mkdir_shape.
+
+(* ================================================================== 3. the hypotheses are satisfiable *)
+(* PrGlobalDelete's FAT16 volume (file "A" of 3 bytes, empty file "B", one root-directory handle):
+   Delete "A" succeeds, both states have an observation and they are related by delete_content;
+   PrGlobalMkdir's blank FAT16 volume: Mkdir "A" succeeds and the two observations are related by
+   mkdir_content (a new directory appears, one slot of the root directory changes) *)
+Example content_dir_example :
+  (exists a a', observes 16 0 exg_state a /\ observes 16 0 exg_s1 a' /\ delete_content [65] (Ok RUnit) a a') /\
+  (exists s1 a a', step (Mkdir 9 [65]) mkd_ex_state = (Ok RUnit, s1) /\
+     observes 256 0 mkd_ex_state a /\ observes 256 0 s1 a' /\ mkdir_content (Ok RUnit) a a').
+Proof.
+  split.
+  - destruct del_example as (I0 & F0 & K0 & S1 & _).
+    destruct (observes_exists 16 0 exg_state I0) as (a & Ho).
+    destruct (content_Delete 16 0 5 [65] exg_state _ _ a I0 F0 K0 S1 Ho) as (a' & Ho' & Hrel).
+    exists a, a'. split; [exact Ho|]. split; [exact Ho'|exact Hrel].
+  - assert (F1 : fst (step (Mkdir 9 [65]) mkd_ex_state) = Ok RUnit) by (vm_compute; reflexivity).
+    assert (I0 : PrHandles.all_ids mkd_ex_state = [0; 9] /\ s_next_id mkd_ex_state = 10) by (vm_compute; split; reflexivity).
+    assert (Hk : op_known_ok (Mkdir 9 [65])) by (repeat split; vm_compute; reflexivity).
+    destruct (step (Mkdir 9 [65]) mkd_ex_state) as [r1 s1] eqn:E1. cbn [fst] in F1. subst r1.
+    assert (Hfresh : id_fresh mkd_ex_state).
+    { intros x Hx. rewrite (proj1 I0) in Hx. rewrite (proj2 I0). destruct Hx as [<-|[<-|[]]]; discriminate. }
+    destruct (observes_exists 256 0 mkd_ex_state mkd_ex_inv) as (a & Ho).
+    destruct (content_Mkdir 256 0 9 [65] mkd_ex_state _ s1 a mkd_ex_inv Hfresh Hk E1 Ho) as (a' & Ho' & Hrel).
+    exists s1, a, a'. split; [reflexivity|]. split; [exact Ho|]. split; [exact Ho'|exact Hrel].
+Qed.
+
+Check (content_Delete : forall fsz vid d name, step_content fsz vid (Delete d name)).
+Check (content_Mkdir : forall fsz vid d name, step_content fsz vid (Mkdir d name)).
+Print Assumptions cdel_cases.
+Print Assumptions mkx_make_dir.
+Print Assumptions content_dir_example.
